@@ -206,8 +206,10 @@ FilterRef(f, v, a) ==
 
 \* widthratio value max width: round(value / max * width) to the nearest integer (an exact half either way: flagged)
 WidthRatio(v, m, w) ==
-  LET num == v * w IN LET q == num \div m r == num % m IN
-  [lo |-> IF 2 * r > m THEN q + 1 ELSE q, hi |-> IF 2 * r >= m THEN q + 1 ELSE q]
+  LET num == AbsI(v * w) IN LET q == num \div m r == num % m IN
+  LET lo == IF 2 * r > m THEN q + 1 ELSE q  hi == IF 2 * r >= m THEN q + 1 ELSE q IN
+  \* (a negative ratio rounds like its absolute value, away from zero at a half)
+  IF v * w >= 0 THEN [lo |-> lo, hi |-> hi] ELSE [lo |-> 0 - hi, hi |-> 0 - lo]
 
 \* ---- shape properties (checked by TLC on every generated input)
 IsSubSeqContig(r, s) == \E i \in 0..Len(s) : \E j \in i..Len(s) : r = Sub(s, i + 1, j)
